@@ -286,6 +286,9 @@ func (m *ModuleInstance) buildTables(module *Module, skipBoundCheck bool) (err e
 	if !skipBoundCheck {
 		for elemI := range module.ElementSection { // Do not loop over the value since elementSegments is a slice of value.
 			elem := &module.ElementSection[elemI]
+			if !elem.IsActive() {
+				continue // Only active segments are applied to a table (there might be none) at instantiation.
+			}
 			table := m.Tables[elem.TableIndex]
 			var offset uint32
 			if elem.OffsetExpr.Opcode == OpcodeGlobalGet {
